@@ -47,13 +47,37 @@
   NOT PROVED as Lean theorems (oracle of harness/props/c09.py only):
   * invariance under the RIGID normal form (snake removal, C07) — only the monoidal
     normalisation is covered above.
-  * spiders, bubbles, sums: a spider is a generator whose array is `Tensor.spiderArray`
-    (recorded in the model, covered as a generator); bubbles (`map func`) and sums
-    (`Tensor.add` fold) are not part of `TFunctor.call`; the harness checks them on real code.
+  * spiders, sums: a spider is a generator whose array is `Tensor.spiderArray` (recorded in the
+    model, covered as a generator); sums (`Tensor.add` fold) are not part of `TFunctor.call`;
+    the harness checks them on real code.
     `Diagram.eval` IS the call of the identity-on-arrays functor (tensor.py:429): nothing to
     prove, the harness checks it.
+  * invariance under interchange / normal form is proved for bubble-free diagrams only
+    (`TFunctor`); for diagrams with bubbles it follows in the same way from
+    `functor_eval_eq_layers_bubbles` but is not stated (oracle only).
+
+  BUBBLES (Model/TensorBubble.lean, Proofs/TensorBubble.lean).  A `tensor.Bubble` is a box that
+  carries a function `func : R → R` (ANY function: a parameter of the model; the driver runs
+  it at a small expression language over ℤ[i]) and a diagram `inside`; `BFunctor.call n` is
+  `tensor.Functor.__call__` with the `Bubble` branch of tensor.py:336-337, `n` bounding the
+  nesting depth.  PROVED, for every functor, every function, every nesting depth:
+  * `eval_bubble`: `F(bubble) = F(bubble.inside).map(bubble.func)`, for the bubble as the
+    argument of the functor and as a one-box diagram (`bubble.eval()`);
+  * `bubble_map_entrywise`: `.map(f)` keeps dom/cod and its entry at every index `i` is
+    `f(entry i)` — "applies the function entry-wise";
+  * `functor_eval_eq_layers_bubbles`: the single-pass evaluation of a diagram whose boxes may be
+    bubbles (around diagrams with bubbles, …) equals the reference semantics `BFunctor.ref`:
+    the layer-by-layer composite with every bubble interpreted by the entrywise image of the
+    layer-by-layer composite of its inside.  Hypotheses: the diagram and all insides are
+    well-typed with genuine `Swap`/`Cup`/`Cap` boxes, and a bubble is a generic box with the
+    dom/cod of its inside (`BFunctor.Good`: the default of monoidal.py:786; the driver's `bfgood`).
+  * `functor_eval_eq_layers_bubbles_level`: one level of the same (composite of `self(box)`).
+  * `functor_eval_eq_layers_bubbles_of_table`: the same in the form the driver runs (bubbles as
+    a table keyed by box, Boolean hypotheses `bfgood`).
+  * `bubble_free_agrees`: with no bubble in the table `BFunctor.call` is `TFunctor.call`.
 -/
 import Proofs.TensorInterchange
+import Proofs.TensorBubble
 import Proofs.GaussInt
 
 namespace DV.C09
@@ -149,6 +173,77 @@ theorem functor_eval_type (F : TFunctor R) (d : Diagram) (t : Tensor R) (h : F.c
   · cases h
   · exact mk?_ok h
 
+/-! ### bubbles -/
+
+/-- A generic box (in particular a bubble) meets the hypothesis on special boxes vacuously. -/
+theorem genuine_of_gen (b : Box) (hk : b.kind = .gen) : Genuine b :=
+  ⟨fun h' => (by rw [hk] at h'; cases h'), fun h' => (by rw [hk] at h'; cases h'),
+    fun h' => (by rw [hk] at h'; cases h')⟩
+
+/-- **`Tensor.map` is entrywise** (tensor.py:258-261): same dom/cod, well-formed, and the entry
+    at every multi-index is the image of the entry. -/
+theorem bubble_map_entrywise (f : R → R) (t : Tensor R) (h : t.WF) :
+    (t.map f).WF ∧ (t.map f).dom = t.dom ∧ (t.map f).cod = t.cod ∧
+    ∀ i, InRange (t.dom ++ t.cod) i → (t.map f).entry i = f (t.entry i) :=
+  ⟨Tensor.map_wf f t h, rfl, rfl, fun _ hi => Tensor.map_entry f t h hi⟩
+
+/-- **`eval_bubble`**, the functor applied to the `Bubble` object (tensor.py:336-337):
+    `F(bubble) = F(bubble.inside).map(bubble.func)`. -/
+theorem eval_bubble_box (F : BFunctor R) (n : Nat) (b : Box) (s : BubbleSpec R)
+    (h : F.bub b = some s) :
+    F.box (n + 1) b = BFunctor.mapE s.func (F.call n s.inside) :=
+  BFunctor.box_bubble F n b s h
+
+/-- **`eval_bubble`**, the bubble as a diagram (`bubble.eval()`, or a bubble met by the loop):
+    `eval (bubble f d) = (eval d).map f`. -/
+theorem eval_bubble (F : BFunctor R) (hG : F.Good) (n : Nat) (b : Box) (s : BubbleSpec R)
+    (h : F.bub b = some s) :
+    F.call (n + 1) (Diagram.ofBox b) = BFunctor.mapE s.func (F.call n s.inside) := by
+  rw [BFunctor.call_ofBox hG (n + 1) b (genuine_of_gen b (hG.kind b s h))]
+  exact BFunctor.box_bubble F n b s h
+
+/-- One level: a diagram whose boxes may be bubbles evaluates to the layer-by-layer composite of
+    the tensors `self(box)` of its boxes. -/
+theorem functor_eval_eq_layers_bubbles_level (F : BFunctor R) (hG : F.Good) (n : Nat)
+    (d : Diagram) (hwf : d.WF) (hgen : ∀ b ∈ d.boxes, Genuine b) :
+    F.call n d = F.layerwise n d :=
+  BFunctor.call_eq_layerwise hG n d hwf hgen
+
+/-- **C09 with bubbles, nested to any depth**: single-pass evaluation = the layer-by-layer
+    composite in which a bubble is the entrywise image of the layer-by-layer composite of its
+    inside (`BFunctor.ref`, `BFunctor.refBox`). -/
+theorem functor_eval_eq_layers_bubbles (F : BFunctor R) (hG : F.Good) (n : Nat) (d : Diagram)
+    (hwf : d.WF) (hgen : ∀ b ∈ d.boxes, Genuine b) :
+    F.call n d = F.ref n d :=
+  BFunctor.call_eq_ref hG n d hwf hgen
+
+/-- The form the correspondence check exercises: the bubbles of a request are a table keyed by
+    box, every inside and the outer diagram are values of the op language (well-typed by C01)
+    and the driver's Boolean tests `bfgood` hold. -/
+theorem functor_eval_eq_layers_bubbles_of_table (base : TFunctor R)
+    (tab : List (Box × BubbleSpec R)) (hB : BFunctor.goodTableB tab = true)
+    (hins : ∀ p ∈ tab, ∃ e : Expr, e.eval = .ok p.2.inside)
+    (e : Expr) (d : Diagram) (h : e.eval = .ok d) (hg : d.boxes.all TFunctor.genuineB = true)
+    (n : Nat) :
+    (BFunctor.ofTable base tab).call n d = (BFunctor.ofTable base tab).ref n d :=
+  functor_eval_eq_layers_bubbles _
+    (BFunctor.good_ofTable base tab hB (fun p hp => by
+      obtain ⟨e', he'⟩ := hins p hp
+      exact Expr.eval_wf e' he'))
+    n d (Expr.eval_wf e h)
+    (fun b hb => genuine_of_genuineB b (List.all_eq_true.1 hg b hb))
+
+/-- The defining tensor of a bubble in the reference semantics. -/
+theorem ref_bubble (F : BFunctor R) (n : Nat) (b : Box) (s : BubbleSpec R)
+    (h : F.bub b = some s) :
+    F.refBox (n + 1) b = BFunctor.mapE s.func (F.ref n s.inside) := by
+  simp only [BFunctor.refBox, h, BFunctor.ref]
+
+/-- A table without bubbles: the model of this section is the model of the previous one. -/
+theorem bubble_free_agrees (F : BFunctor R) (h : ∀ b, F.bub b = none) (n : Nat) (d : Diagram) :
+    F.call n d = F.base.call d :=
+  BFunctor.call_no_bubbles F h n d
+
 end
 
 /-! ### non-vacuity: a concrete rigid diagram with a generator, a daggered generator, a swap, a
@@ -211,5 +306,87 @@ example : F0.call d0 = F0.layerwise d0 :=
           | (simp [bf, bg, bsw, bcap, bcup, Box.swap, Box.cap, Box.cup] at h; done)
           | exact ⟨xb, xb.r, rfl, rfl⟩
           | rfl)
+
+/-! ### non-vacuity for bubbles: two bubbles around EQUAL insides with DIFFERENT functions in one
+    diagram (Python's `==`/`repr` cannot tell them apart), and a bubble around that diagram
+    (nesting depth 2), over Gaussian integers. -/
+
+def bh : Box := { name := "h", dom := [xa], cod := [xa] }
+def dIn : Diagram := Diagram.ofBox bh
+def bb1 : Box := { name := "Bubble", dom := [xa], cod := [xa], data := "b1" }
+def bb2 : Box := { name := "Bubble", dom := [xa], cod := [xa], data := "b2" }
+/-- `h.bubble(func=square) >> h.bubble(func=plus_i)` -/
+def dTwo : Diagram :=
+  ⟨[xa], [xa], [bb1, bb2], [0, 0], ⟨[xa], [xa], [⟨[], bb1, []⟩, ⟨[], bb2, []⟩]⟩⟩
+def bb3 : Box := { name := "Bubble", dom := [xa], cod := [xa], data := "b3" }
+/-- `h >> (h.bubble(square) >> h.bubble(plus_i)).bubble(func=double)` -/
+def dOut : Diagram :=
+  ⟨[xa], [xa], [bh, bb3], [0, 0], ⟨[xa], [xa], [⟨[], bh, []⟩, ⟨[], bb3, []⟩]⟩⟩
+
+def B0 : BFunctor GaussInt where
+  base := { ob := fun _ => [2], ar := fun _ => ⟨[4], #[⟨1, 0⟩, ⟨0, 1⟩, ⟨2, 0⟩, ⟨1, 1⟩]⟩ }
+  bub := fun b =>
+    if b = bb1 then some ⟨fun x => x * x, dIn⟩
+    else if b = bb2 then some ⟨fun x => x + ⟨0, 1⟩, dIn⟩
+    else if b = bb3 then some ⟨fun x => x + x, dTwo⟩
+    else none
+
+theorem dTwo_wf : dTwo.WF := by
+  refine ⟨rfl, rfl, rfl, rfl, ?_⟩
+  simp [LArrow.WF, dTwo, Chain, Layer.dom, Layer.cod, bb1, bb2]
+
+theorem dOut_wf : dOut.WF := by
+  refine ⟨rfl, rfl, rfl, rfl, ?_⟩
+  simp [LArrow.WF, dOut, Chain, Layer.dom, Layer.cod, bh, bb3]
+
+theorem B0_cases {b : Box} {s : BubbleSpec GaussInt} (h : B0.bub b = some s) :
+    (b = bb1 ∧ s.inside = dIn) ∨ (b = bb2 ∧ s.inside = dIn) ∨ (b = bb3 ∧ s.inside = dTwo) := by
+  unfold B0 at h
+  simp only at h
+  split at h
+  · rename_i hb; cases h; exact Or.inl ⟨hb, rfl⟩
+  · split at h
+    · rename_i hb; cases h; exact Or.inr (Or.inl ⟨hb, rfl⟩)
+    · split at h
+      · rename_i hb; cases h; exact Or.inr (Or.inr ⟨hb, rfl⟩)
+      · cases h
+
+theorem B0_good : B0.Good where
+  kind b s h := by rcases B0_cases h with ⟨rfl, _⟩ | ⟨rfl, _⟩ | ⟨rfl, _⟩ <;> rfl
+  dom b s h := by rcases B0_cases h with ⟨rfl, e⟩ | ⟨rfl, e⟩ | ⟨rfl, e⟩ <;> rw [e] <;> rfl
+  cod b s h := by rcases B0_cases h with ⟨rfl, e⟩ | ⟨rfl, e⟩ | ⟨rfl, e⟩ <;> rw [e] <;> rfl
+  wf b s h := by
+    rcases B0_cases h with ⟨_, e⟩ | ⟨_, e⟩ | ⟨_, e⟩ <;> rw [e]
+    · exact Diagram.ofBox_wf bh
+    · exact Diagram.ofBox_wf bh
+    · exact dTwo_wf
+  gen b s h := by
+    rcases B0_cases h with ⟨_, e⟩ | ⟨_, e⟩ | ⟨_, e⟩ <;> rw [e] <;> intro b' hb'
+    · have : b' = bh := by simpa [dIn, Diagram.ofBox] using hb'
+      rw [this]; exact genuine_of_gen _ rfl
+    · have : b' = bh := by simpa [dIn, Diagram.ofBox] using hb'
+      rw [this]; exact genuine_of_gen _ rfl
+    · simp only [dTwo, List.mem_cons, List.not_mem_nil, or_false] at hb'
+      rcases hb' with rfl | rfl <;> exact genuine_of_gen _ rfl
+
+/-- the theorem applies to `dOut`, `B0` at depth 2 -/
+example : B0.call 2 dOut = B0.ref 2 dOut :=
+  functor_eval_eq_layers_bubbles B0 B0_good 2 dOut dOut_wf (by
+    intro b hb
+    simp only [dOut, List.mem_cons, List.not_mem_nil, or_false] at hb
+    rcases hb with rfl | rfl <;> exact genuine_of_gen _ rfl)
+
+-- the evaluation succeeds (so the equality is not one of two errors) and the two bubbles
+-- around the same inside are NOT interchangeable: `square` then `plus_i` is not `square` twice
+set_option maxRecDepth 100000 in
+example : (B0.call 2 dOut).toOption.isSome = true := by decide +kernel
+
+set_option maxRecDepth 100000 in
+example : B0.call 1 dTwo ≠
+    ({ B0 with bub := fun b => if b = bb1 ∨ b = bb2 then some ⟨fun x => x * x, dIn⟩ else none }
+      : BFunctor GaussInt).call 1 dTwo := by decide +kernel
+
+-- fuel below the nesting depth is reported, never silently wrong
+example : B0.call 1 dOut = .error .fuel := by decide +kernel
 
 end DV.C09
